@@ -35,6 +35,8 @@ def run(ctx):
                 ctx.stat("expected_reject_class"); continue
         keep.append(r)
     c02.check_records(ctx, keep, classify=classify, need_reference=True)
+    # the loops of the METRICS-mode program against the Lean model compiler (C01/C02 theorems): observers read through
+    c02.check_model(ctx, [r for r in keep if r["ok"] and not classify(r["case"], r)], only_model_class=True)
     for f in ctx.findings:
         if f["id"] not in [h for h, _ in ctx.known_hits]:
             ctx.notes.append("known finding %s not encountered in this run's sample" % f["id"])
